@@ -434,6 +434,9 @@ def run(ck, prog, ctx):
 
     # ---- index of the new cluster: distances to it are stored under (live index, index of the pushed set)
     ck.rule("FIELD", "the key of a new distance is (live index, index the merged set is pushed at): Vec::len taken before the push, or len - 1 after it (DESIGN 3.9)")
+    from engines import check_parallel_vectors as _cpv
+    ck.rule("PARALLEL", "two Vec fields of one struct that a method edits together are edited at the same position")
+    ck.extra["side-by-side vector edits examined"] = _cpv(ck, "PARALLEL", prog, [b_ for b_ in prog.production() if (b_.file or "").startswith(("src/stats/linkage",))])
     pvm = Prov(prog, inline=False, mutflow=False)
     for nm in ("arithmetic_cluster", "cluster_set_unions"):
         host = prog.body(LINK + nm)
